@@ -12,7 +12,7 @@ CLAIMED = {
          "Urn model of rng.shuffle on sentinels is a modelling step (validated exhaustively on the enumerated trees); numpy semantics trusted.",
          "DESIGN.md section 6 C09"),
  "C01": ("Coq proof (conditional SMC with adaptive multinomial resampling leaves the path target invariant, for every proposal, particle count, schedule and symmetric resampling criterion; auxiliary-variable lemma for the data order; the assembled update over the real placement grammar with PhyClone's three proposals, ESS criterion and schedule; END TO END: the FS-CRP posterior of C03 on the data term of C02 plugged in as the target, no premise left but positive data) + exact transition matrices of the real particle-Gibbs update (every random outcome enumerated) checked for pi P = pi + vm_compute correspondence of the Coq sampler model with the real ConditionalSMCSampler, of the grammar with the real proposals / retained paths, and of the theorem's target gam_fscrp with the real log_p_one on every state",
-         "Theorems C01_csmc_invariant (induction over the schedule via exchangeability of the unconditional sampler, a change of measure and slot averaging), C01_pg_update_invariant (the assembled update: random data order + conditional SMC + target identification), C01_phyclone_update_invariant_* (real grammar, the three proposal densities, ESS criterion, schedule) and C01_phyclone_update_leaves_fscrp_posterior_invariant: for every n, grid, number of samples, positive data, alpha > 0, particle count and threshold the update leaves invariant the measure whose weight on a state is C03's spec_log_p_one evaluated on C02's root vectors of the rose forest the state denotes (C01_state_denotes_its_forest: that forest is well formed, covers 0..n-1 and has the state as its relation table). All closed under the global context. The implementation is decided by computing, for every start tree over 1-3 (thorough: 4) data points, the EXACT outcome distribution of ParticleGibbsTreeSampler.sample_tree under both wirings (run.py and library), all three proposals, outliers on/off, alpha/particles/threshold grids, and testing max|pi P - pi| <= 1e-9 against exp(log_p_one); the Coq model of the sampler, fed with proposal/weight tables read off the real kernel, reproduces the real sampler's outcome distribution row by row for fixed data orders; the theorem's target evaluated in Coq equals exp(TreeJointDistribution.log_p_one) (and log_p) of the harness-built tree on every state over 1-3 (thorough: 4) points.",
+         "Theorems C01_csmc_invariant (induction over the schedule via exchangeability of the unconditional sampler, a change of measure and slot averaging), C01_pg_update_invariant (the assembled update: random data order + conditional SMC + target identification), C01_phyclone_update_invariant_* (real grammar, the three proposal densities, ESS criterion, schedule) and C01_phyclone_update_leaves_fscrp_posterior_invariant: for every n, grid, number of samples, positive data, alpha > 0, particle count and threshold the update leaves invariant the measure whose weight on a state is C03's spec_log_p_one evaluated on C02's root vectors of the rose forest the state denotes (C01_state_denotes_its_forest: that forest is well formed, covers 0..n-1 and has the state as its relation table; C01_fscrp_target_well_defined: the weight is the density of EVERY well-formed forest the state denotes), also with PhyClone's actual weight sequence exp(log_p) x 1/#orders of the partial trees and proposals adapted to exp(log_p) (C01_phyclone_update_invariant_with_its_actual_weights). All closed under the global context. The implementation is decided by computing, for every start tree over 1-3 (thorough: 4) data points, the EXACT outcome distribution of ParticleGibbsTreeSampler.sample_tree under both wirings (run.py and library), all three proposals, outliers on/off, alpha/particles/threshold grids, and testing max|pi P - pi| <= 1e-9 against exp(log_p_one); the Coq model of the sampler, fed with proposal/weight tables read off the real kernel, reproduces the real sampler's outcome distribution row by row for fixed data orders; the theorem's target evaluated in Coq equals exp(TreeJointDistribution.log_p_one) (and log_p) of the harness-built tree on every state over 1-3 (thorough: 4) points.",
          "What ties the theorem's incremental weights to the code is validation: the weights create_particle computes are target ratios with the last-step correction (C08_weights_telescope + the correspondence rows); multinomial layout modelled as iid categorical draws (validated by the correspondence); enumerating RNG assumes numpy's laws; floats outside the model.",
          "DESIGN.md section 6 C01 and section 10.10"),
  "C04": ("Coq proof (Gibbs-on-fibers invariance, auxiliary-mixture and composition lemmas, closed candidate set of the data-point move, refutation witnesses) + exact transition matrices of the three real moves checked for pi P = pi",
